@@ -557,8 +557,8 @@ def run(ctx):
                     drift += 1
                     if len(ctx.drift) < 5:
                         ctx.drift.append({"backend": e["backend"], "sent": e["sent"], "read_back": e["h"]})
-            if lo == 0:
-                th.join()           # quick: TLC has the machine to itself for the validation
+            if ctx.quick:
+                th.join()           # quick: the validation does not compete with the model-checking runs
             v = judge(ctx, events, f"histories {lo + 1}..{lo + len(events)}")
             n_events += len(events)
             for e in events[:: max(1, len(events) // 5)][:5]:
